@@ -231,6 +231,30 @@ func init() {
 			s.done = true
 			return nil
 		},
+		// sync.Pool: Get returns the most recently Put object if any (worst case for aliasing), else New()
+		"(*sync.Pool).Get": func(m *Machine, c *frame, fn *ssa.Function, a []value) value {
+			p := a[0].(*value)
+			if l := m.pools[p]; len(l) > 0 {
+				v := l[len(l)-1]
+				m.pools[p] = l[:len(l)-1]
+				return v
+			}
+			// field New is the last field of sync.Pool
+			st := (*p).(structV)
+			newFn := st[len(st)-1]
+			switch f := newFn.(type) {
+			case *ssa.Function:
+				if f == nil {
+					return ifaceV{}
+				}
+			}
+			return m.call(c, 0, newFn, nil)
+		},
+		"(*sync.Pool).Put": func(m *Machine, c *frame, fn *ssa.Function, a []value) value {
+			p := a[0].(*value)
+			m.pools[p] = append(m.pools[p], a[1])
+			return nil
+		},
 		// runtime
 		"runtime.SetFinalizer": func(m *Machine, c *frame, fn *ssa.Function, a []value) value { return nil },
 		"runtime.KeepAlive":    func(m *Machine, c *frame, fn *ssa.Function, a []value) value { return nil },
@@ -424,17 +448,23 @@ func init() {
 type nativeObj struct{ v interface{} }
 
 func atomicAdd(m *Machine, c *frame, fn *ssa.Function, a []value) value {
+	m.preemptPoint() // an atomic operation is a synchronisation point: other goroutines may run before it
 	p := m.ptr(a[0])
 	n := tBin("bvadd", (*p).(*Term), m.asTerm(a[1]))
 	*p = n
 	return n
 }
-func atomicLoad(m *Machine, c *frame, fn *ssa.Function, a []value) value { return *m.ptr(a[0]) }
+func atomicLoad(m *Machine, c *frame, fn *ssa.Function, a []value) value {
+	m.preemptPoint()
+	return *m.ptr(a[0])
+}
 func atomicStore(m *Machine, c *frame, fn *ssa.Function, a []value) value {
+	m.preemptPoint()
 	*m.ptr(a[0]) = a[1]
 	return nil
 }
 func atomicCAS(m *Machine, c *frame, fn *ssa.Function, a []value) value {
+	m.preemptPoint()
 	p := m.ptr(a[0])
 	if m.branch(tEq((*p).(*Term), m.asTerm(a[1]))) {
 		*p = a[2]
